@@ -69,6 +69,15 @@ def queries(tier):
                                     cdefs=["-DENV_HAVE_YIELD", "-DENV_NO_CV_UNTIL", "-DNNI_EXPIRE_BATCH=2"], unwind=8, timeout=300, allow_pruned=True,
                                     params={"outer": o, "inner": i, "timeout": desc, "yield_point": "symbolic" if inj is None else inj}))
     qs += time_queries(tier)
+    TW = ["d0rw0", "p0d0rw0", "p0w0d0rw0", "x0w0", "p0x0w0", "d0w0rw0", "d0d1rw0w1", "d1d0rw0w1", "p0p1d1d0rw0w1", "d0rd0rw0", "p0d0rp0d0rw0", "d0x1rw0w1", "x0d0rw0",
+          "d0rx0w0", "p0d0w0rw0", "d0d1rd1d0rw1w0", "p0w0", "d1w1", "p1d1w1rw1"]
+    for w in TW:
+        for lastnocb in ((0, 1) if "1" in w else (0,)):
+            d = {"WORD": '"%s"' % w, "NT": 2}
+            if lastnocb:
+                d["LASTNOCB"] = 1
+            qs.append(Query("taskq-%s%s" % (w, "-nocb" if lastnocb else ""), "c02/taskq.c", tus=TUS, env=ENV, defs=d, unwind=20, timeout=120, group="c02/taskq.c",
+                            params={"unit": "core/taskq.c", "word": w, "task1_has_callback": not lastnocb}))
     for cls, nm in ((0, "fresh"), (1, "stopped"), (2, "zero-timeout"), (3, "aborted")):
         qs.append(Query("dialer-start-aio-%s" % nm, "c14/dialer_connect.c", tus=["core/list.c", "core/options.c"],
                         env=["env_alloc.c", "env_misc.c", "env_sync.c", "env_aio.c", "env_libc.c"], defs={"STARTAIO": cls}, unwind=30, timeout=300,
